@@ -686,7 +686,7 @@ def class_lmis_symmetric(ctx, only=None):
     return n
 
 
-def _table_problem(cls, me, label):
+def _table_problem(cls, me, label, expected=()):
     """first thing wrong with the tables of multipliers / the emitted objects of one unrolled hook (None: nothing)"""
     cons = [c for c in me.attrs["list_of_class_constraints"] if isinstance(c, SymObj)]
     twice = [c for k, c in enumerate(cons) if any(c is d for d in cons[:k])]
@@ -760,6 +760,25 @@ def _table_problem(cls, me, label):
                             if not ok_cell:
                                 return "[%s] cell (%d, %d) of the table `%s` holds `%s`, which is not about the sample(s) of its row and column (%s%s)" % (
                                     label, i0, j0, tname, cv, (rows[i0] + ", ") if isinstance(rows, list) and len(rows) == nr and isinstance(rows[i0], str) else "", cols[j0]), n
+                        if isinstance(cv, ConsV) and expected and nr == len(lists["all samples"]) == nc and isinstance(rows, list) and rows == labels["all samples"] \
+                                and cols == labels["all samples"]:
+                            # a table over all ordered pairs of samples: the documented condition is written for an ordered pair (first sample,
+                            # second sample); the cell (i, j) holds its instance on (sample i, sample j), not the one on (sample j, sample i)
+                            import re as _re
+                            hits = set()
+                            conds = set()
+                            for d0, e0 in expected:
+                                m0 = _re.search(r"on \(sample (\d+), sample (\d+)\)", d0)
+                                if m0 and cv.equivalent(e0):
+                                    hits.add((int(m0.group(1)), int(m0.group(2))))
+                                    conds.add(d0.split(" on (")[0])
+                            # the reference has an instance of its own of that condition for this ordered pair (a condition written for unordered
+                            # pairs has one instance per pair, and either cell may hold it)
+                            documented_here = any(d0.split(" on (")[0] in conds and _re.search(r"on \(sample %d, sample %d\)" % (i0, j0), d0) for d0, _e in expected)
+                            if hits and (i0, j0) not in hits and documented_here:
+                                return "[%s] cell (%d, %d) of the table `%s` holds `%s`: the documented condition on the ordered pair (sample %d, sample %d), not the " \
+                                       "one on (sample %d, sample %d) -- the multiplier shown for a pair is that of the other orientation" % (
+                                           label, i0, j0, tname, cv, sorted(hits)[0][0], sorted(hits)[0][1], i0, j0), n
                         nm0 = x.attrs.get("name") if isinstance(x, SymObj) else None
                         if not isinstance(nm0, str):
                             continue
@@ -799,7 +818,7 @@ def r_hook_tables(ctx, only=None):
                     except ProgramRaise:
                         continue          # reported by R-HOOKPROG under C03 / C04
                     ran += 1
-                    bad, n0 = _table_problem(cls, me, label + (", the point of the second sample named P1" if named else ""))
+                    bad, n0 = _table_problem(cls, me, label + (", the point of the second sample named P1" if named else ""), expected=_c)
                     n_tables += n0
                     if bad:
                         break
